@@ -520,4 +520,6 @@ def run(ctx):
     ctx.run_rule("R9.7", "the shell expression is written back verbatim (`$ `/`> ` + line): no trim/replace in generate_testcase_expression [E-FLOW]", r9_7, floor=3)
     ctx.run_rule("R9.6", "sibling agreement: ` (no-eol)` is never appended after an ` (escaped)` marker (guarded like OutputStream::to_output_string) [E-PATH control dependence]", r9_6, floor=3)
     ctx.run_rule("R9.5", "escaped renderings never contain the decoder's introducer unescaped; ` (escaped)` exactly when the rendering differs (shared with C11 R11.2/R11.3) [E-PATH]", r9_5, floor=10)
+    from . import c06 as _c06
+    ctx.run_rule("R9.9", "writer/reader fence agreement: the parser closes a block on a column-0 prefix test against the opening fence - what the writer's max_backtick_size measures (shared with C06 R6.9) [E-TABLE]", _c06.r6_9, floor=3)
     ctx.run_rule("R9.4", "writer/reader tables: `$ `/`> ` prefixes, exit-code line iff code != 0, `[n]` form accepted by the reader's pattern [E-TABLE]", r9_4, floor=6)
